@@ -124,6 +124,8 @@ class Evaluator(object):
         for b in reversed(frame['blocks']):
             if name in b:
                 return b[name]
+        if name in self.constants:
+            return self.constants[name]          # a constant of the model is read by its bare name
         raise OutOfDomain('variable %s read before assignment or out of scope' % name)
 
     def visible(self, frame, name):
@@ -181,7 +183,11 @@ class Evaluator(object):
         if k == 'stop':
             raise _Stop()
         if k == 'return':
-            raise _Return(self.expr(frame, s[1]) if s[1] is not None else None)
+            value = self.expr(frame, s[1]) if s[1] is not None else None
+            idxs = [value.idx] if isinstance(value, Handle) else (value.idxs if isinstance(value, InstSet) else [])
+            if any(i is not None and not ref.insts[i].alive for i in idxs):
+                raise OutOfDomain('a deleted instance is returned')
+            raise _Return(value)
         if k == 'create':
             idx = ref.new(s[2])
             if s[1] is not None:
